@@ -13,7 +13,13 @@ of real UdpClient <-> ServerClientConnection sessions; every application payload
 of the Coq text and of BitField) classifies every copy as inside / outside the receiver's
 window on arrival: inside => the copy must be dropped whole (deep snapshot equality except
 stats.dropped, see props/C01.py) and nothing may be delivered again; a duplicate accepted or
-delivered OUTSIDE the window is the known finding D16, INSIDE it is a violation."""
+delivered OUTSIDE the window is the known finding D16, INSIDE it is a violation.
+
+At-most-once UP TO THE APPLICATION (handler_worlds): the hand-over from incoming_messages to
+EventHandler.handle_message in the real server loop (UdpServerThread.run behind every front door, harness/srvx.py)
+with handlers that raise in every kind of event: calls of handle_message per unique payload <= 1, messages out of
+UdpClient.getMessages per unique payload <= 1, one stats.dropped per copy; the same worlds are replayed on Server.v
+(unit srv_run)."""
 import struct, random, logging
 from harness import lib
 from harness import connsim as S
@@ -31,7 +37,14 @@ ASSUMPTIONS = [
     "C04_exact / C04_partial speak about authentic datagrams carrying data messages (APP, APP_FRAGMENT with a complete 6-byte "
     "fragment header, KEEP_ALIVE, DISCONNECT) on a connection that holds a key — the traffic of an established connection",
 ]
-TRUSTED = ["harness/props/C04.py ghost window (true-index bookkeeping used to classify copies as inside/outside the window)"]
+TRUSTED = ["harness/props/C04.py ghost window (true-index bookkeeping used to classify copies as inside/outside the window)",
+           "harness/srvx.py (front doors of the stepped server; ScriptedSocket stands for the OS socket under _UdpServer.run)"]
+HANDLER_RULE = ("server-loop worlds (harness/srvx.py, every front door): 1-3 real UdpClients, 0-5 unique messages per client and tick (several per "
+                "datagram, all retry modes), every datagram possibly duplicated back to back, recent datagrams replayed (always well inside the "
+                "32-datagram window), server datagrams duplicated towards the clients, an application whose handler raises with probability "
+                "0 / 0.15 / 0.4 / 0.7 in connect, handle_message, disconnect (and a quarter of that in update) and echoes from inside handle_message; "
+                "observed at EventHandler.handle_message, UdpClient.getMessages and stats.dropped; non-trivial = world with >= 10 hand-overs, "
+                ">= 5 copies and at least one exception raised by handle_message")
 
 T = S.TICKS
 RING, HALF = 65535, 32767
@@ -630,7 +643,8 @@ def run(run):
                 streams.append(sc_random(run, rng, sender, start, 600 if thorough else 150, 45, 0.3, 0.2))
             if thorough:
                 streams.append(sc_random(run, rng, sender, start, 1500, 300, 0.4, 0.3))
-    handler_worlds(run, rng, 48 if thorough else 12, 80 if thorough else 50)
+    handler_worlds(run, rng, 160 if thorough else 12, 80 if thorough else 50)
+    run.rules.append(HANDLER_RULE)
     copies = sum(s.copies for s in streams)
     dup_in = sum(1 for s in streams for f in s.gp.flags if f)
     run.count("streams", len(streams))
